@@ -707,9 +707,9 @@ pub fn run(tier: &str, rec: &Recorder) -> RunOutput {
     let stats = E2Stats::new();
     let seed = std::env::var("VERIF_SEED").ok().and_then(|s| s.parse().ok()).unwrap_or(0);
     let free_calls = check_graph_free(rec);
-    for f in c20_families(tier) {
-        for_each_graph(&f, seed, deadline, &stats, |b, c| check_api(b, rec, c));
-    }
+    for_each_family(&c20_families(tier), |f| {
+        for_each_graph(f, seed, deadline, &stats, |b, c| check_api(b, rec, c));
+    });
     // named shapes
     let mut shape_calls = 0u64;
     let mut shape_graphs = 0u64;
